@@ -218,6 +218,10 @@ func (p *Parser) expectPeekVarOrAutoVar(scriptName string) (*string, *ast.Comman
 				return nil, nil, nil, NewRangeParseError(commandToken, p.curToken, fmt.Sprintf("auto-var command %s has an arg position of %d, but only %v arguments were provided", cmdName, *cmd.VarNameArgPosition, len(commandStmt.Args)))
 			}
 			varName = commandStmt.Args[*cmd.VarNameArgPosition]
+			if varName == "" {
+				// The argument is empty, or an inline text/movement whose label is only filled in later.
+				return nil, nil, nil, NewRangeParseError(commandToken, p.curToken, fmt.Sprintf("auto-var command %s has an arg position of %d, but that argument is not a var", cmdName, *cmd.VarNameArgPosition))
+			}
 		}
 		return &varName, commandStmt, impData, err
 	}
